@@ -146,7 +146,7 @@ PROPS["C10"] = dict(
                "each session with a report gets exactly one notification carrying exactly its own reports in message order, independent of the other sessions' reports, nothing lost or doubled "
                "(Model/Krep.lean, the function the krep driver runs). External predicate on the ctl stream: every usage report sent is one the data plane produced for that session in this event, "
                "carried as measured (URR id, trigger, times, counters, duration; IEs by method/MNOP), none missing in a Session Report Request; and a Session Report Request goes to the node that owns the session "
-               "(the address its IPv4 node id names, or the address an IPv6 / FQDN node id associated from), also after a takeover (ctl 'nodes' profile). Tie: S-ctl 'urr' (handlers) + S-full 'krep' (kernel REPORT multicast decoded by the real buffnetlink listener, queued, served by the running loop, "
+               "(the address its IPv4 node id names, or the address an IPv6 / FQDN node id associated from), also after a takeover (ctl 'nodes' profile; for a takeover by an IPv6 / FQDN node id the renamed node object keeps the old address — known finding takeoverNode, shared with C05). Tie: S-ctl 'urr' (handlers) + S-full 'krep' (kernel REPORT multicast decoded by the real buffnetlink listener, queued, served by the running loop, "
                "Session Report Requests decoded at the SMF).",
     level_note="Trusted: as C01; go-pfcp's IE encoders (harness decodes what was sent). Repaired (fix 90a7329): reports for sessions whose node id is an IPv6 address / FQDN were dropped (and the packet handed up for buffering not queued); they now go to the address the node associated from — dest_total, non_ipv4_node_falls_back; corpus case 9007.",
 )
